@@ -9,6 +9,7 @@ import lib
 
 ID = "C17"
 LEAN_MODULE = "UralModel.Props.C17"
+EXTRA_IMPORTS = ["UralModel.Props.C17Concrete"]
 THEOREMS = [
     # part A: links_from_html, for all href lists and all parameter functions
     "Ural.Props.C17.links_followable",
@@ -22,6 +23,21 @@ THEOREMS = [
     "Ural.Props.C17.links_complete",
     "Ural.Props.C17.links_are_urls_partial",
     "Ural.Props.C17.links_should_follow_partial",
+    # part A with the parameters INSTANTIATED (Props/C17Concrete.lean): is_url / urljoin /
+    # canonicalize_url are the Lean models, only the idna codec and the TLD table stay outside
+    "Ural.Props.C17.canon_preserves_is_url",
+    "Ural.Props.C17.canon_not_preserving_outside_region",
+    "Ural.Props.C17.canon_not_preserving_bad_puny",
+    "Ural.Props.C17.links_are_urls_concrete",
+    "Ural.Props.C17.links_are_urls_concrete_plain",
+    "Ural.Props.C17.links_should_follow_concrete",
+    "Ural.Props.C17.links_http_concrete",
+    "Ural.Props.C17.isUrlC_implies_http",
+    "Ural.Props.C17.isUrlC_total",
+    "Ural.Props.C17.links_not_base_concrete",
+    "Ural.Props.C17.links_canonical_concrete",
+    "Ural.Props.C17.links_unique_concrete",
+    "Ural.Props.C17.links_followable_concrete",
     # part B: urls_from_html, scanners on str and on bytes
     "Ural.Props.C17.scan_bytes_eq_str",
     "Ural.Props.C17.urls_from_html_bytes_eq_str",
@@ -34,6 +50,15 @@ TABLE_OBLIGATIONS = [
     "Ural.Props.C17.html_patterns_twins",
     "Ural.Props.C17.html_patterns_shape",
     "Ural.Props.C17.http_protocol_shape",
+    # the is_url patterns, read off the regenerated terms (Lemmas/UrlPattern.lean)
+    "Ural.UrlPattern.url_shape",
+    "Ural.UrlPattern.class_facts",
+    "Ural.UrlPattern.label_facts",
+    "Ural.UrlPattern.http_shape",
+    "Ural.UrlPattern.special_no_x",
+    "Ural.UrlPattern.protocol_shape",
+    "Ural.UrlPattern.patterns_noNullRep",
+    "Ural.UrlPattern.hostRe_eq",
 ]
 RULE = (
     "A case is an HTML-like document (a list of pieces rendered to a str) and a base URL. "
@@ -46,11 +71,17 @@ RULE = (
     "to canonicalization, duplicates (also up to canonicalization), entity-encoded delimiters "
     "(&amp; &#x2F; &#47;), IDN. Every case is run as str AND as UTF-8 bytes through "
     "urls_from_html and, for each of the 8 combinations of canonicalize / unique / "
-    "strip_fragment, through links_from_html (model vs implementation: 19 lines per case, the "
+    "strip_fragment, through links_from_html (model vs implementation: 19 lines per case + up to 8 "
+    "lines `links_concrete` = the same call on the model with is_url / urljoin / canonicalize_url / "
+    "PROTOCOL_RE INSTANTIATED by their Lean models, only the idna codec and the TLD table shipped, "
+    "withheld for the option settings under which a string handed to the parser models lies outside "
+    "their stated domain: non-ASCII cased character in a host, NFKC check, IPv4 tail in an IPv6 literal; the "
     "first being a three-way comparison of the match spans of URL_IN_HTML_RE: real re / generic "
     "interpreter of Py/Re.lean on the regenerated term / hand-written scanner; "
     "the model gets urljoin / is_url / canonicalize_url / PROTOCOL_RE as tables computed with "
-    "the real functions), and through the oracle. Order: regression corpus, then every "
+    "the real functions), and through the oracle. Order: regression corpus, then documents of 5 anchors "
+    "over STRUCTURED URLS (protocol x userinfo x host x port x tail: every factor alone, host x tail, "
+    "userinfo x host, port x host, then seeded products; relative hrefs; the witnesses of KF-C17-3..6), then every "
     "document of 1 piece and of 2 pieces over the core inventory (bases rotating), then seeded "
     "random documents of 1..6 pieces over the full inventory x 3 bases. Non-trivial = the "
     "document holds at least one anchor AND (a script block, or a non-ASCII character, or an "
@@ -64,7 +95,8 @@ EXHAUSTIVE = {
 TRUSTED = [
     "Lean 4 kernel; axioms of every listed theorem audited to be within {propext, Classical.choice, Quot.sound}",
     "hand-written Lean models UralModel/Model/UrlsFromHtml.lean (leftmost-greedy scanners for SCRIPT_TAG / URL_IN_HTML over any symbol type, instantiated at Char and UInt8) and Model/LinksFromHtml.lean (filter chain, should_follow_href), tied to the code by differential execution (this run); pattern strings, flags and the parsed character tests of the four compiled regexes are regenerated on every run (Gen/HtmlPatterns.lean) and enter through decide-checked table obligations",
-    "urljoin, is_url, canonicalize_url, PROTOCOL_RE.match are PARAMETERS of the links model (theorems hold for all functions); in the correspondence their values are computed by the harness with the real functions and shipped as tables",
+    "urljoin, is_url, canonicalize_url, PROTOCOL_RE.match are PARAMETERS of the links model in Props/C17.lean (theorems hold for all functions; stream links_from_html: their values are computed by the harness with the real functions and shipped as tables) and are INSTANTIATED in Props/C17Concrete.lean / stream links_concrete by the Lean models of C16 (is_url over the regenerated patterns, safe_urlsplit(...).hostname = Py.urlsplit + accessors), C15 (Py.urljoin) and C01/C02 (whole-function canonicalize_url); what stays outside is the idna codec (attempt_to_decode_idna) and the TLD table (is_valid_tld), shipped per case; the theorem canon_preserves_is_url assumes of the codec only PunyLabelSafe (a label of the is_url patterns decodes to a label of the patterns), which is FALSE for CPython's codec exactly on KF-C17-4 and is evaluated on the real codec for every decoded label (oracle cross-check)",
+    "the parser models (Py.urlsplit, accessors, urljoin) are compared with CPython, not proved equal to it; stated restrictions: str.lower is ASCII lower-casing on hosts, _checknetloc (NFKC) not modelled, _check_bracketed_host approximated; cases outside are withheld from links_concrete (histogram label concrete-model:*) and KF-C17-5 lies there",
     "html.unescape is a parameter of the theorems; the driver implements &amp; &lt; &gt; &quot; &apos; and numeric references with ';' and the stream only keeps documents on whose raw hrefs CPython's html.unescape agrees with that subset",
     "UTF-8: Lean core's String.utf8EncodeChar / ByteArray.utf8Decode? (round trip proved in core) stand for CPython's codec; the driver checks utf8(doc) against the bytes CPython produced for every case",
     "CPython's re engine (backtracking search semantics) is what the hand-written scanners are compared with, not verified; for URL_IN_HTML_RE the generic backtracking interpreter of Py/Re.lean runs on the regenerated term next to the hand scanner on every case (three-way); SCRIPT_TAG_RE (\\b, look-ahead) and the bytes twins have no translation in that framework (two-way)",
@@ -74,12 +106,17 @@ ASSUMPTIONS = [
     "the structured-document theorem is about well-formed documents (an href does not contain its own quote, nor ASCII whitespace / '>' / a leading quote when unquoted; no '<' inside attribute text, hrefs or text; no further ' href=' after the href; scripts are closed)",
 ]
 UNPROVED = (
-    "'every yielded link is accepted by is_url' is proved only under the hypothesis that "
-    "canonicalize_url preserves is_url (links_are_urls_partial); with canonicalize=True the "
-    "clause is explored by the oracle on the implementation (the two inputs on which it used to "
-    "fail - astral IDN, one-digit port - were repaired in /repo, 13903ce and 7e90a9e, and stay in "
-    "the corpus). What html.unescape, urljoin, is_url, canonicalize_url compute is "
-    "outside the model (parameters)."
+    "'every yielded link is accepted by is_url / should_follow_href' with canonicalize=True is a "
+    "theorem about the concrete models (links_are_urls_concrete, links_should_follow_concrete, from "
+    "canon_preserves_is_url) on the class ResolvedInRegion (every resolved href has an ASCII scheme, no "
+    "'[' ']' in its authority, no '@' behind its authority) and for an idna decoder that maps host labels "
+    "to host labels; OUTSIDE that class the clause is FALSE, on the models (theorems "
+    "canon_not_preserving_outside_region / _bad_puny) and on the implementation (KF-C17-3 userinfo of the "
+    "patterns reaching an '@' behind the authority, KF-C17-4 punycode label decoding to a label with a "
+    "leading / trailing hyphen, KF-C17-5 U+0130 lower-casing to two characters, KF-C17-6 = KF-C01-1 "
+    "brackets in the userinfo; one patch: notes/fixes/links-from-html-rechecks-canonical-url.diff). "
+    "Not proved: that the parser models equal CPython's urlsplit / urljoin (sampled), what html.unescape "
+    "computes (parameter of part B), the idna codec and the TLD table (shipped)."
 )
 
 # ----------------------------------------------------------------------------------------
@@ -274,7 +311,9 @@ def _esc_attr(h):
 
 
 def url_doc(hrefs, base, note=None):
-    return mk([anchor(_esc_attr(h)) for h in hrefs], base, note)
+    c = mk([anchor(_esc_attr(h)) for h in hrefs], base, note)
+    c["urls"] = True
+    return c
 
 
 def url_corpus():
@@ -285,6 +324,8 @@ def url_corpus():
     yield url_doc(["http://[::1]/@a.com/..", "http://-.com/@a.com/.."], b0, "KF-C17-3")
     # KF-C17-4: punycode label whose decoding starts / ends with a hyphen
     yield url_doc(["http://xn---a-cja.com/", "http://xn----9fa.com/x"], b0, "KF-C17-4")
+    # KF-C17-6 (= KF-C01-1): brackets in the userinfo, the canonical link does not parse
+    yield url_doc(["http://u[::1%7A]@a.com/"], b0, "KF-C17-6")
     # KF-C17-5: U+0130 lower-cases to two characters, the label outgrows 64
     yield url_doc(["http://" + DOT_I * 40 + ".com/"], b0, "KF-C17-5")
     # near misses that are fine
@@ -519,6 +560,18 @@ def corpus():
 
 
 def cases(rng, tier):
+    """the stream `links_concrete` runs on the corpus, on every structured-URL document, on every
+    1-piece document and on every third of the others (they vary the HTML around the same hrefs)"""
+    k = 0
+    for c in _cases(rng, tier):
+        if len(c.get("pieces") or []) >= 2 and not c.get("note") and not c.get("urls"):
+            k += 1
+            if k % 3:
+                c["concrete"] = False
+        yield c
+
+
+def _cases(rng, tier):
     for c in corpus():
         yield c
     for c in url_cases(rng, tier):
@@ -672,7 +725,7 @@ def impl(case):
     for combo in COMBOS:
         for as_bytes in (False, True):
             out.append(_links(case, as_bytes, combo))
-    if isinstance(hs, list):
+    if isinstance(hs, list) and case.get("concrete", True):
         for combo, w in zip(COMBOS, _concrete_plan(case, hs)):
             if w is not None:
                 out.append(_links(case, False, combo))
@@ -915,7 +968,7 @@ def ops(case):
             out.append(o)
     # the same calls with the parameters INSTANTIATED (linksFromHtmlConcrete): nothing is
     # shipped but the idna codec and the TLD table
-    if isinstance(hs, list):
+    if isinstance(hs, list) and case.get("concrete", True):
         for combo, w in zip(COMBOS, _concrete_plan(case, hs)):
             if w is not None:
                 out.append({"f": "links_concrete", "doc": doc, "bytes": False, "base": case["base"], "canonicalize": combo[0], "unique": combo[1], "strip_fragment": combo[2], "puny": w[0], "tlds": w[1]})
@@ -936,6 +989,11 @@ def oracle(case):
     """first failure that is NOT one of the known-finding classes if there is one (so that a
     known finding never masks something else in the same case), else the first failure"""
     fails = _oracle_all(case)
+    for f in fails:
+        if f.startswith("not-is_url:"):
+            t = theorem_contradicted(case, f)
+            if t:
+                return t
     for f in fails:
         if not any(k(case, f) for k in KF_PREDICATES):
             return f
@@ -1017,7 +1075,7 @@ def _oracle_all(case):
 # known findings
 # ----------------------------------------------------------------------------------------
 def _refused_link(failure):
-    mt = re.search(r"yields ('(?:[^'\\]|\\.)*'|\"(?:[^\"\\]|\\.)*\") which is_url", failure)
+    mt = re.search(r"yields ('(?:[^'\\]|\\.)*'|\"(?:[^\"\\]|\\.)*\") which (?:is_url|is not an absolute)", failure)
     if not mt:
         return None
     import ast
@@ -1139,8 +1197,84 @@ def kf_dotted_capital_i(case, failure):
     return False
 
 
+def kf_canonical_link_unparsable(case, failure):
+    """KF-C17-6 (= KF-C01-1 seen from links_from_html): canonicalize=True; the refused link does not
+    parse any more (urlsplit raises ValueError: a raw '[' / ']' in the userinfo whose content became
+    a bracketed-host look-alike after unquoting), is_url(tld_aware) catches the ValueError and says no"""
+    if "canonicalize=True" not in failure:
+        return False
+    if not (failure.startswith("not-is_url:") or "which is not an absolute http(s) url" in failure):
+        return False
+    l = _refused_link(failure)
+    if l is None:
+        return False
+    try:
+        _std_urlsplit(l.strip())
+    except ValueError:
+        return True
+    return False
+
+
+# ----------------------------------------------------------------------------------------
+# the domain of the theorem canon_preserves_is_url, mirrored on the implementation
+# ----------------------------------------------------------------------------------------
+def in_region(u):
+    """Python mirror of `Ural.UrlPattern.region` (Lemmas/IsUrlShape.lean)"""
+    s = u.strip()
+    scheme = s.split(":", 1)[0]
+    if not all(ch.isascii() and ch.isalpha() for ch in scheme):
+        return False
+    after = s[len(scheme) :][3:]
+    mt = re.search(r"[/?#]", after)
+    auth, rest = (after[: mt.start()], after[mt.start() :]) if mt else (after, "")
+    return "[" not in auth and "]" not in auth and "@" not in rest
+
+
+_label_re = []
+
+
+def _label():
+    """the label sub-pattern of ural's URL pattern: (?:[F][M]{0,62})?[F]"""
+    if not _label_re:
+        p = _m()["pat"]
+        f = "[a-z0-9" + p.UNICODE_HOST_CHARS + "]"
+        mm = "[a-z0-9" + p.UNICODE_HOST_CHARS + "_-]"
+        _label_re.append(re.compile(r"(?:%s%s{0,62})?%s\Z" % (f, mm, f), re.I | re.UNICODE))
+    return _label_re[0]
+
+
+def puny_label_safe_on(r):
+    """PunyLabelSafe evaluated on the real codec for the labels of the host of `r`"""
+    puny = _m()["utils"].attempt_to_decode_idna
+    for lab in _labels_of(r):
+        if lab[:4] == "xn--" and _label().match(lab) and not _label().match(puny(lab)):
+            return False
+    return True
+
+
+def in_theorem_domain(r):
+    """the hypotheses of canon_preserves_is_url + the stated domain of the parser models"""
+    import canon_common as cc
+
+    try:
+        cleaned = cc.clean_impl(r, "https")
+    except Exception:  # noqa
+        cleaned = r
+    return in_region(r) and puny_label_safe_on(r) and outside_concrete([r, cleaned]) is None
+
+
+def theorem_contradicted(case, failure):
+    """a `not-is_url` failure with canonicalize=True whose origin lies INSIDE the domain of the
+    theorem: the implementation contradicts what is proved of the models (model drift or a
+    wrong hypothesis) - never masked by a known finding"""
+    for r in _origins(case, failure):
+        if in_theorem_domain(r):
+            return "CONTRADICTS Ural.Props.C17.canon_preserves_is_url (origin %r is in region, its labels decode to labels, inside the parser model): %s" % (r, failure)
+    return None
+
+
 # (kf_astral_idn / kf_one_digit_port are retired: repaired in /repo, a failure of these classes is a regression again)
-KF_PREDICATES = [kf_userinfo_crosses_authority, kf_puny_label_hyphen, kf_dotted_capital_i]
+KF_PREDICATES = [kf_userinfo_crosses_authority, kf_puny_label_hyphen, kf_dotted_capital_i, kf_canonical_link_unparsable]
 
 
 # ----------------------------------------------------------------------------------------
@@ -1203,7 +1337,9 @@ def classify(case):
         labs.append("outside-unescape-subset(model skipped)")
     else:
         hs = _urls(case["doc"])
-        if isinstance(hs, list):
+        if not case.get("concrete", True):
+            labs.append("concrete-model:not-run(1-in-3 sampling of multi-piece documents)")
+        elif isinstance(hs, list):
             n_out = sum(1 for w in _concrete_plan(case, hs) if w is None)
             labs.append("concrete-model:%s" % ("all-8-settings" if n_out == 0 else "withheld(outside-parser-model)" if n_out == 8 else "some-settings"))
     if case.get("note", "").startswith("KF-"):
